@@ -340,12 +340,19 @@ def run(tier):
                       "replacing the fallback handler follows mpt++ dispatch::set_error (no C function exists)",
                       "the exhaustive model is bounded (see MC cfg); beyond it coverage is by the seeded histories",
                       "memory safety of the calls is observed (ASan), not proved"]
+    # extension X11: the input loop that feeds the dispatcher (checks/x11_notify.py, docs/X11_notify.md)
+    import x11_notify
+    if x11_notify.enabled():
+        x11_notify.run_part(ck, tier)
     return ck.finish()
 
 
 def replay(path):
     d = json.load(open(path))
     det = d["detail"]
+    if det.get("part") == "x11_notify":
+        import x11_notify
+        return x11_notify.replay(det, path)
     beh = det.get("behaviour")
     if not beh:
         print(json.dumps(det, indent=1)[:4000])
